@@ -17,6 +17,17 @@ invalid cache - never called since construction - while the objective listening 
 holds a valid one, and every notification has to pass through them all the same.  Draws use
 common random numbers (one tensor of noise symbols per result shape), so that a cached
 objective and the value of a freshly built copy are comparable.
+
+Real-loop histories: the update is made by the REAL torchtree loop running on SymTensors - Optimizer.run
+(Optimizer._run with torch.optim.SGD / Adam, Optimizer._run_closure with LBFGS) maximising the joint / an ELBO,
+MCMC.run with Scaler / SlidingWindow / HMC operators (both decisions, the uniform draw is a symbol).  The parameter
+values a loop leaves are expressions (x - lr * dJ/dx, s * x, x + eps * M^-1 p ...); the freshly built copy receives the
+same expression ids, so a cache that was not invalidated still mentions the pre-step symbols.  A logger hook compares
+after every iteration of the loop as well.
+
+Further graphs (`unrooted`, `epidemic`, `module`) hold the parameter classes and cached model classes the first four do
+not (see bounds['classes'] in body()); cpu() / to(dtype) of every parameter class are operations that must not raise.
+A raise met on the symbolic run is reported only after the same history raised on plain tensors.
 """
 from __future__ import annotations
 
@@ -24,7 +35,9 @@ import contextlib
 import io
 import itertools
 import math
+import os
 import sys
+import warnings
 
 import torch
 
@@ -191,6 +204,192 @@ def scenario_timetree():
     return spec, base, evaluators, ops
 
 
+SEQS4 = {'t0': 'ACRAT', 't1': 'CG-CT', 't2': 'GTNGA', 't3': 'ATGCA'}
+
+
+def _par(id_, tensor):
+    return {'id': id_, 'type': 'Parameter', 'tensor': tensor}
+
+
+def scenario_unrooted():
+    """classes no earlier scenario holds: UnRootedTreeModel (branch lengths as the parameter), GTR, ConstantSiteModel with mu,
+    the compound gamma-Dirichlet tree prior, the shrinkage priors (BayesianBridge in both forms, ScaleMixtureNormal with slab)
+    and the precision-integrated GMRF (weighted)"""
+    n = 4
+    taxa = cm.taxa_json(n)
+    tree = cm.unrooted_tree_json(((0, 1), (2, 3)), n)
+    tree['taxa'] = taxa
+    spec = [
+        {'id': 'like', 'type': 'TreeLikelihoodModel', 'tree_model': tree,
+         'site_model': {'id': 'site', 'type': 'ConstantSiteModel', 'mu': _par('mu', [1.3])},
+         'substitution_model': {'id': 'subst', 'type': 'GTR', 'rates': _par('gtr_rates', [1.0, 2.0, 0.5, 0.7, 3.0, 1.0]),
+                                'frequencies': _par('freqs', [0.1, 0.2, 0.3, 0.4])},
+         'site_pattern': {'id': 'sp', 'type': 'SitePattern', 'alignment': cm.alignment_json(SEQS4, taxa='taxa')}},
+        {'id': 'cgd', 'type': 'CompoundGammaDirichletPrior', 'tree_model': 'tree', 'alpha': _par('cgd_alpha', [1.5]),
+         'c': _par('cgd_c', [0.8]), 'shape': _par('cgd_shape', [2.0]), 'rate': _par('cgd_rate', [0.5])},
+        _par('coef', [0.4, -0.7, 1.1]),
+        {'id': 'bridge', 'type': 'BayesianBridge', 'x': 'coef', 'scale': _par('b_scale', [0.9]), 'alpha': _par('b_alpha', [0.5])},
+        {'id': 'bridge_local', 'type': 'BayesianBridge', 'x': 'coef', 'scale': 'b_scale',
+         'local_scale': _par('b_local', [0.6, 1.2, 0.8]), 'slab': _par('b_slab', [2.0])},
+        {'id': 'horseshoe', 'type': 'ScaleMixtureNormal', 'x': 'coef', 'loc': 0.0, 'global_scale': _par('h_global', [0.7]),
+         'local_scale': _par('h_local', [0.5, 1.5, 0.9]), 'slab': _par('h_slab', [1.7])},
+        {'id': 'gint', 'type': 'GMRFGammaIntegrated', 'x': 'coef', 'shape': 1.5, 'rate': 2.0},
+        {'id': 'joint', 'type': 'JointDistributionModel', 'distributions': ['like', 'cgd', 'bridge', 'bridge_local', 'horseshoe', 'gint']},
+    ]
+    base = {'tree.blens': [0.1, 0.11, 0.12, 0.13, 0.14], 'mu': [1.3], 'gtr_rates': [1.0, 2.0, 0.5, 0.7, 3.0, 1.0],
+            'freqs': [0.1, 0.2, 0.3, 0.4], 'cgd_alpha': [1.5], 'cgd_c': [0.8], 'cgd_shape': [2.0], 'cgd_rate': [0.5],
+            'coef': [0.4, -0.7, 1.1], 'b_scale': [0.9], 'b_alpha': [0.5], 'b_local': [0.6, 1.2, 0.8], 'b_slab': [2.0],
+            'h_global': [0.7], 'h_local': [0.5, 1.5, 0.9], 'h_slab': [1.7]}
+    evaluators = {
+        'joint()': lambda D: D['joint'](),
+        'like()': lambda D: D['like'](),
+        'cgd() [compound gamma-Dirichlet prior]': lambda D: D['cgd'](),
+        'bridge()': lambda D: D['bridge'](),
+        'bridge_local()': lambda D: D['bridge_local'](),
+        'horseshoe()': lambda D: D['horseshoe'](),
+        'gint()': lambda D: D['gint'](),
+        'tree.branch_lengths()': lambda D: D['tree'].branch_lengths(),
+        'site.rates()': lambda D: D['site'].rates(),
+        'subst.rates': lambda D: D['subst'].rates,
+    }
+    ops = {
+        'assign branch lengths': ('assign', 'tree.blens', (0.02, 0.5)),
+        'in-place write into the branch lengths + fire_parameter_changed': ('inplace', 'tree.blens', (0.02, 0.5)),
+        'assign mu': ('assign', 'mu', (0.3, 3.0)),
+        'assign GTR rates': ('assign', 'gtr_rates', (0.3, 3.0)),
+        'assign cgd alpha': ('assign', 'cgd_alpha', (1.1, 3.0)),
+        'assign cgd c': ('assign', 'cgd_c', (0.3, 2.0)),
+        'assign cgd shape': ('assign', 'cgd_shape', (1.0, 3.0)),
+        'in-place write into cgd rate + fire_parameter_changed': ('inplace', 'cgd_rate', (0.2, 2.0)),
+        'assign coef': ('assign', 'coef', (0.2, 2.0)),
+        'assign bridge scale (shared by both bridges)': ('assign', 'b_scale', (0.3, 2.0)),
+        'assign bridge exponent': ('assign', 'b_alpha', (0.25, 1.0)),
+        'assign bridge local scales': ('assign', 'b_local', (0.3, 2.0)),
+        'assign bridge slab': ('assign', 'b_slab', (1.0, 3.0)),
+        'assign horseshoe global scale': ('assign', 'h_global', (0.3, 2.0)),
+        'in-place write into horseshoe local scales + fire_parameter_changed': ('inplace', 'h_local', (0.3, 2.0)),
+        'assign horseshoe slab': ('assign', 'h_slab', (1.0, 3.0)),
+    }
+    return spec, base, evaluators, ops
+
+
+def scenario_epidemic():
+    """time trees with the remaining tree priors and parameter kinds: BirthDeathModel and BDSKModel (one epoch), exponential,
+    piecewise-linear-grid and theta-integrated coalescents, the Poisson tree likelihood and the time-aware precision-integrated
+    GMRF on a plain TimeTreeModel; a FlexibleTimeTreeModel whose internal heights are a TransformedParameter
+    (DifferenceNodeHeightTransform of the tree itself).  RootParameter is not part of any graph: the class cannot be
+    instantiated (it does not implement the abstract requires_grad setter of AbstractParameter)."""
+    taxa = cm.taxa_json(N)
+    tree = cm.time_tree_json(((0, 1), 2), N)
+    tree['taxa'] = taxa
+    ftree = {'id': 'ftree', 'type': 'torchtree.evolution.tree_model_flexible.FlexibleTimeTreeModel', 'newick': cm.to_newick(((0, 1), 2)),
+             'taxa': 'taxa',
+             'internal_heights': {'id': 'ftree.heights', 'type': 'TransformedParameter',
+                                  'transform': 'torchtree.evolution.tree_height_transform.DifferenceNodeHeightTransform',
+                                  'parameters': {'tree_model': 'ftree'}, 'x': _par('differences', [0.3, 0.8])}}
+    spec = [
+        tree,
+        {'id': 'bd', 'type': 'BirthDeathModel', 'tree_model': 'tree', 'lambda': _par('bd_lambda', [2.0]), 'mu': _par('bd_mu', [0.5]),
+         'psi': _par('bd_psi', [0.3]), 'rho': _par('bd_rho', [0.6]), 'origin': _par('bd_origin', [6.0])},
+        {'id': 'bdsk', 'type': 'BDSKModel', 'tree_model': 'tree', 'R': _par('R', [1.8]), 'delta': _par('delta', [0.9]),
+         's': _par('s', [0.4]), 'rho': _par('sk_rho', [0.5]), 'origin': _par('sk_origin', [7.0])},
+        {'id': 'expo', 'type': 'ExponentialCoalescentModel', 'theta': _par('e_theta', [3.0]), 'growth': _par('growth', [0.4]),
+         'tree_model': 'tree'},
+        {'id': 'plin', 'type': 'PiecewiseLinearCoalescentGridModel', 'theta': _par('l_theta', [2.0, 3.0, 1.5]), 'grid': [1.5, 4.0],
+         'tree_model': 'tree'},
+        {'id': 'cint', 'type': 'ConstantCoalescentIntegratedModel', 'alpha': 2.0, 'beta': 1.5, 'tree_model': 'tree'},
+        {'id': 'poisson', 'type': 'PoissonTreeLikelihood', 'tree_model': 'tree',
+         'branch_model': {'id': 'clock', 'type': 'StrictClockModel', 'tree_model': 'tree', 'rate': _par('rate', [2.5])},
+         'edge_lengths': [3, 1, 4, 2]},
+        {'id': 'gint_t', 'type': 'GMRFGammaIntegrated', 'x': _par('field', [0.2, 0.9]), 'shape': 1.5, 'rate': 2.0, 'tree_model': 'tree'},
+        ftree,
+        {'id': 'fcoal', 'type': 'ConstantCoalescentModel', 'theta': _par('f_theta', [1.5]), 'tree_model': 'ftree'},
+        {'id': 'joint', 'type': 'JointDistributionModel',
+         'distributions': ['bd', 'bdsk', 'expo', 'plin', 'cint', 'poisson', 'gint_t', 'fcoal', 'ftree.heights']},
+    ]
+    base = {'tree.heights': [1.0, 2.5], 'bd_lambda': [2.0], 'bd_mu': [0.5], 'bd_psi': [0.3], 'bd_rho': [0.6], 'bd_origin': [6.0],
+            'R': [1.8], 'delta': [0.9], 's': [0.4], 'sk_rho': [0.5], 'sk_origin': [7.0], 'e_theta': [3.0], 'growth': [0.4],
+            'l_theta': [2.0, 3.0, 1.5], 'rate': [2.5], 'field': [0.2, 0.9], 'differences': [0.3, 0.8], 'f_theta': [1.5]}
+    evaluators = {
+        'joint()': lambda D: D['joint'](),
+        'bd() [BirthDeathModel]': lambda D: D['bd'](),
+        'bdsk()': lambda D: D['bdsk'](),
+        'expo()': lambda D: D['expo'](),
+        'plin()': lambda D: D['plin'](),
+        'cint()': lambda D: D['cint'](),
+        'poisson()': lambda D: D['poisson'](),
+        'gint_t()': lambda D: D['gint_t'](),
+        'fcoal()': lambda D: D['fcoal'](),
+        'tree.node_heights': lambda D: D['tree'].node_heights,
+        'tree.branch_lengths()': lambda D: D['tree'].branch_lengths(),
+        'ftree.node_heights': lambda D: D['ftree'].node_heights,
+        'ftree.branch_lengths()': lambda D: D['ftree'].branch_lengths(),
+        'ftree.heights.tensor [transformed]': lambda D: D['ftree.heights'].tensor,
+    }
+    ops = {
+        'assign internal heights': ('assign', 'tree.heights', (0.5, 5.0)),
+        'in-place write into internal heights + fire_parameter_changed': ('inplace', 'tree.heights', (0.5, 5.0)),
+        'assign birth rate': ('assign', 'bd_lambda', (1.0, 3.0)),
+        'assign sampling proportion rho of the birth-death model': ('assign', 'bd_rho', (0.2, 0.9)),
+        'assign origin of the birth-death model': ('assign', 'bd_origin', (5.5, 9.0)),
+        'assign R': ('assign', 'R', (1.1, 3.0)),
+        'assign delta': ('assign', 'delta', (0.5, 2.0)),
+        'assign origin of the skyline model': ('assign', 'sk_origin', (5.5, 9.0)),
+        'assign growth': ('assign', 'growth', (0.1, 1.0)),
+        'assign theta of the exponential coalescent': ('assign', 'e_theta', (1.0, 5.0)),
+        'assign theta of the piecewise-linear coalescent': ('assign', 'l_theta', (1.0, 4.0)),
+        'assign clock rate of the Poisson likelihood': ('assign', 'rate', (1.0, 4.0)),
+        'assign field': ('assign', 'field', (-1.0, 1.0)),
+        'assign differences (under the node-height transform of the flexible tree)': ('assign', 'differences', (0.1, 2.0)),
+        'assign through the transformed internal heights of the flexible tree': ('assign', 'ftree.heights', (0.5, 5.0)),
+    }
+    return spec, base, evaluators, ops
+
+
+class TinyNet(torch.nn.Module):
+    """the torch.nn.Module behind the Module / ModuleParameter scenario: forward() is a function of the two tensors the module
+    was CONSTRUCTED with (torchtree.nn.Module hands it parameter.tensor once)"""
+
+    def __init__(self, weight, bias):
+        super().__init__()
+        self.weight, self.bias = weight, bias
+
+    def forward(self):
+        return torch.cat(((self.weight * self.weight).sum(-1, keepdim=True) + self.bias, self.weight.sum(-1, keepdim=True) * self.bias), -1)
+
+
+# parameters whose tensor object is owned by a torch.nn.Module: only in-place updates (+ notification) reach the module, so the
+# initial symbolic state and the state of a freshly built copy are written in place as well
+INPLACE_ONLY = {'module': {'w', 'b'}}
+
+
+def scenario_module():
+    """torchtree.nn.Module (a CallableModel around a torch.nn.Module that owns the tensors of its parameters, listening to them
+    through a Container) and ModuleParameter (a parameter whose tensor is the output of that module), read by a Distribution"""
+    spec = [
+        _par('w', [0.5, -1.5]), _par('b', [0.25]),
+        {'id': 'net', 'type': 'torchtree.nn.module.Module', 'module': 'C11.TinyNet', 'parameters': {'weight': 'w', 'bias': 'b'}},
+        {'id': 'mp', 'type': 'ModuleParameter', 'module': 'net'},
+        {'id': 'prior', 'type': 'Distribution', 'distribution': 'torch.distributions.Normal', 'x': 'mp',
+         'parameters': {'loc': _par('p_loc', [0.5]), 'scale': _par('p_scale', [2.0])}},
+        {'id': 'joint', 'type': 'JointDistributionModel', 'distributions': ['prior']},
+    ]
+    base = {'w': [0.5, -1.5], 'b': [0.25], 'p_loc': [0.5], 'p_scale': [2.0]}
+    evaluators = {
+        'joint()': lambda D: D['joint'](),
+        'prior()': lambda D: D['prior'](),
+        'net() [Module]': lambda D: D['net'](),
+        'mp.tensor [ModuleParameter]': lambda D: D['mp'].tensor,
+    }
+    ops = {
+        'in-place write into w + fire_parameter_changed': ('inplace', 'w', (-2.0, 2.0)),
+        'in-place write into b + fire_parameter_changed': ('inplace', 'b', (-1.0, 1.0)),
+        'assign p_loc': ('assign', 'p_loc', (-1.0, 1.0)),
+        'assign p_scale': ('assign', 'p_scale', (0.5, 3.0)),
+    }
+    return spec, base, evaluators, ops
+
+
 S_DRAWS = 2  # Monte-Carlo sample count of the objectives
 
 
@@ -319,8 +518,384 @@ WRITES = {  # operation target -> parameters written
 }
 
 SCENARIOS = {'phylo': scenario_phylo, 'smoothing': scenario_smoothing, 'timetree': scenario_timetree,
-             'variational': scenario_variational}
+             'variational': scenario_variational, 'unrooted': scenario_unrooted, 'epidemic': scenario_epidemic,
+             'module': scenario_module}
 STOCHASTIC = {'variational'}  # scenarios whose observers draw: sampler stub installed
+# scenarios whose expressions (birth-death densities: exp / log / sqrt towers) make the sat side of a general query slow: what is
+# false or different AT THE WITNESS is put to the solver at the witness point first (see _run_task)
+WITNESS_FIRST = {'epidemic', 'unrooted'}
+
+
+# ------------------------------------------------------------------ real loops (Optimizer.run, MCMC.run) as update operations
+def _opt(algo, iters, groups, loss='joint', hook=False, tier='quick', **options):
+    return ('optimizer', {'algo': algo, 'iters': iters, 'groups': groups, 'loss': loss, 'hook': hook, 'tier': tier,
+                          'options': options}, None)
+
+
+def _mcmc(operators, plan, joint='joint', hook=False, tier='quick'):
+    """operators: [(kind, [parameter ids])], kind in scaler / slide / hmc; plan: [(operator index, 'accept' | 'reject')]"""
+    return ('mcmc', {'ops': operators, 'plan': plan, 'joint': joint, 'hook': hook, 'tier': tier}, None)
+
+
+HOOK = ' [every observer read after each iteration, through a logger]'
+
+
+def loop_ops(scen):
+    """Update operations in which a REAL torchtree loop does the update.  Kept apart from the operations of the scenario
+    functions: the enumeration of the earlier histories is unchanged."""
+    ops = {}
+    if scen == 'phylo':
+        g2 = [['tree.ratios', 'tree.root_height', 'rate'], ['kk', 'theta_unc', 'shape', 'pinv']]
+        g1 = [['tree.ratios', 'tree.root_height', 'rate', 'kk', 'theta_unc', 'shape']]
+        gt = [['theta', 'tree.ratios', 'kk']]  # theta: a Parametric (TransformedParameter) -> its base parameter theta_unc
+        ops['Optimizer.run SGD, 1 iteration, one group, maximising joint'] = _opt('SGD', 1, g1)
+        ops['Optimizer.run SGD, 2 iterations, two groups (own learning rates), maximising joint'] = _opt('SGD', 2, g2)
+        ops['Optimizer.run SGD, 2 iterations, two groups (own learning rates), maximising joint' + HOOK] = _opt('SGD', 2, g2, hook=True)
+        ops['Optimizer.run SGD (momentum, weight decay), 2 iterations, parameters given through the transformed theta, maximising joint'] = \
+            _opt('SGD', 2, gt, momentum=0.5, weight_decay=0.125)
+        ops['Optimizer.run Adam, 1 iteration, two groups, maximising joint'] = _opt('Adam', 1, g2)
+        ops['Optimizer.run Adam, 2 iterations, one group, maximising joint' + HOOK] = _opt('Adam', 2, g1, hook=True, tier='thorough')
+        ops['Optimizer.run LBFGS (max_iter=1), 1 iteration, maximising joint'] = _opt('LBFGS', 1, g1, max_iter=1)
+        ops['Optimizer.run LBFGS (max_iter=2), 2 iterations, maximising joint'] = _opt('LBFGS', 2, g1, max_iter=2, tier='thorough')
+        for dec in ('accept', 'reject'):
+            ops[f'MCMC.run 1 iteration, ScalerOperator on tree.root_height, {dec}'] = _mcmc([('scaler', ['tree.root_height'])], [(0, dec)])
+            ops[f'MCMC.run 1 iteration, SlidingWindowOperator on tree.ratios, {dec}'] = _mcmc([('slide', ['tree.ratios'])], [(0, dec)])
+            ops[f'MCMC.run 1 iteration, ScalerOperator on the kappa view, {dec}'] = _mcmc([('scaler', ['kappa'])], [(0, dec)])
+            ops[f'MCMC.run 1 iteration, ScalerOperator on the transformed theta, {dec}'] = _mcmc([('scaler', ['theta'])], [(0, dec)])
+            ops[f'MCMC.run 1 iteration, HMCOperator (1 leapfrog step) on ratios, rate, theta_unc, {dec}'] = \
+                _mcmc([('hmc', ['tree.ratios', 'rate', 'theta_unc'])], [(0, dec)])
+        for d1, d2 in itertools.product(('accept', 'reject'), repeat=2):
+            ops[f'MCMC.run 2 iterations, Scaler(root_height) {d1} then Slide(ratios) {d2}' + HOOK] = \
+                _mcmc([('scaler', ['tree.root_height']), ('slide', ['tree.ratios'])], [(0, d1), (1, d2)], hook=True,
+                      tier='quick' if d1 != d2 else 'thorough')
+            ops[f'MCMC.run 2 iterations, Scaler(kappa view) {d1} then Scaler(kappa view) {d2}'] = \
+                _mcmc([('scaler', ['kappa'])], [(0, d1), (0, d2)], tier='quick' if d1 != d2 else 'thorough')
+        ops['MCMC.run 2 iterations, HMC(ratios, rate, theta_unc) reject then Scaler(root_height) accept' + HOOK] = \
+            _mcmc([('hmc', ['tree.ratios', 'rate', 'theta_unc']), ('scaler', ['tree.root_height'])], [(0, 'reject'), (1, 'accept')],
+                  hook=True, tier='thorough')
+    elif scen == 'timetree':
+        g = [['tree.heights', 'rate'], ['theta', 'kappa', 'mu', 'pinv']]
+        ops['Optimizer.run SGD, 2 iterations, two groups, maximising joint'] = _opt('SGD', 2, g)
+        ops['Optimizer.run SGD, 2 iterations, two groups, maximising joint' + HOOK] = _opt('SGD', 2, g, hook=True)
+        ops['Optimizer.run Adam, 1 iteration, two groups, maximising joint'] = _opt('Adam', 1, g)
+        ops['Optimizer.run LBFGS (max_iter=1), 1 iteration, maximising joint'] = _opt('LBFGS', 1, [g[0] + g[1]], max_iter=1, tier='thorough')
+        for dec in ('accept', 'reject'):
+            ops[f'MCMC.run 1 iteration, SlidingWindowOperator on the internal heights, {dec}'] = _mcmc([('slide', ['tree.heights'])], [(0, dec)])
+            ops[f'MCMC.run 1 iteration, ScalerOperator on the per-branch rates, {dec}'] = _mcmc([('scaler', ['rate'])], [(0, dec)])
+            ops[f'MCMC.run 1 iteration, HMCOperator (1 leapfrog step) on heights, theta, {dec}'] = \
+                _mcmc([('hmc', ['tree.heights', 'theta'])], [(0, dec)], tier='quick' if dec == 'reject' else 'thorough')
+    elif scen == 'smoothing':
+        g = [['field_a', 'field_b'], ['tau']]
+        ops['Optimizer.run SGD, 2 iterations, members of the concatenation + precision, maximising joint'] = _opt('SGD', 2, g)
+        ops['Optimizer.run SGD, 2 iterations, members of the concatenation + precision, maximising joint' + HOOK] = _opt('SGD', 2, g, hook=True)
+        ops['Optimizer.run Adam, 1 iteration, parameters given through the transformed pop (exp of the concatenation)'] = \
+            _opt('Adam', 1, [['pop', 'tau']])
+        for dec in ('accept', 'reject'):
+            ops[f'MCMC.run 1 iteration, SlidingWindowOperator on the concatenated field, {dec}'] = _mcmc([('slide', ['field'])], [(0, dec)])
+            ops[f'MCMC.run 1 iteration, ScalerOperator on the transformed pop, {dec}'] = _mcmc([('scaler', ['pop'])], [(0, dec)])
+            ops[f'MCMC.run 1 iteration, HMCOperator (1 leapfrog step) on field_a, field_b, {dec}'] = \
+                _mcmc([('hmc', ['field_a', 'field_b'])], [(0, dec)], tier='quick' if dec == 'reject' else 'thorough')
+    elif scen == 'variational':
+        g = [['locs', 'q_logscale'], ['q2_scale']]
+        ops['Optimizer.run SGD, 2 iterations, variational parameters, maximising the ELBO'] = _opt('SGD', 2, g, loss='elbo')
+        ops['Optimizer.run SGD, 2 iterations, variational parameters, maximising the ELBO' + HOOK] = _opt('SGD', 2, g, loss='elbo', hook=True)
+        ops['Optimizer.run Adam, 1 iteration, variational parameters, maximising the ELBO (entropy=True)'] = \
+            _opt('Adam', 1, g, loss='elbo_ent')
+        ops['Optimizer.run SGD, 1 iteration, parameters given through the transformed q_scale, minimising KLpq'] = \
+            _opt('SGD', 1, [['q_scale', 'locs']], loss='klpq', tier='thorough')
+    elif scen == 'unrooted':
+        # (the hyper-parameters of the compound gamma-Dirichlet prior are moved by the assignment operations of the scenario)
+        g = [['tree.blens', 'mu'], ['coef', 'b_scale', 'h_local', 'gtr_rates']]
+        ops['Optimizer.run SGD, 2 iterations, two groups, maximising joint'] = _opt('SGD', 2, g)
+        ops['Optimizer.run Adam, 1 iteration, two groups, maximising joint' + HOOK] = _opt('Adam', 1, g, hook=True)
+        for dec in ('accept', 'reject'):
+            ops[f'MCMC.run 1 iteration, ScalerOperator on the branch lengths, {dec}'] = _mcmc([('scaler', ['tree.blens'])], [(0, dec)])
+            ops[f'MCMC.run 1 iteration, HMCOperator (1 leapfrog step) on coef, b_scale, {dec}'] = \
+                _mcmc([('hmc', ['coef', 'b_scale'])], [(0, dec)], tier='quick' if dec == 'reject' else 'thorough')
+    elif scen == 'epidemic':
+        # (the internal heights of the plain tree are moved by the assignment operations of the scenario)
+        g = [['bd_lambda', 'R', 'growth', 'rate'], ['differences', 'field', 'l_theta']]
+        ops['Optimizer.run SGD, 2 iterations, two groups, maximising joint'] = _opt('SGD', 2, g)
+        ops['Optimizer.run Adam, 1 iteration, two groups, maximising joint' + HOOK] = _opt('Adam', 1, g, hook=True, tier='thorough')
+        for dec in ('accept', 'reject'):
+            ops[f'MCMC.run 1 iteration, ScalerOperator on the transformed heights of the flexible tree, {dec}'] = \
+                _mcmc([('scaler', ['ftree.heights'])], [(0, dec)])
+            ops[f'MCMC.run 1 iteration, SlidingWindowOperator on R, {dec}'] = _mcmc([('slide', ['R'])], [(0, dec)],
+                                                                                  tier='quick' if dec == 'reject' else 'thorough')
+    elif scen == 'module':
+        ops['Optimizer.run SGD, 2 iterations, the tensors owned by the torch.nn.Module, maximising joint'] = _opt('SGD', 2, [['w', 'b']])
+        ops['Optimizer.run SGD, 2 iterations, the tensors owned by the torch.nn.Module, maximising joint' + HOOK] = \
+            _opt('SGD', 2, [['w', 'b']], hook=True)
+        ops['Optimizer.run Adam, 1 iteration, parameters given through the Module, maximising joint'] = _opt('Adam', 1, [['net'], ['p_loc']])
+    return ops
+
+
+def convert_ops(scen):
+    """device / dtype conversion through the parameter interface (AbstractParameter.cpu / .to): no value changes, nothing may
+    raise and every observer still equals a fresh rebuild (cuda() needs a device and is outside)"""
+    table = {
+        'phylo': [('theta', 'cpu', 'TransformedParameter'), ('theta', 'to', 'TransformedParameter'), ('kappa', 'cpu', 'ViewParameter'),
+                  ('kk', 'to', 'Parameter')],
+        'smoothing': [('field', 'cpu', 'CatParameter'), ('field', 'to', 'CatParameter'),
+                      ('pop', 'cpu', 'TransformedParameter of a concatenation')],
+        'epidemic': [('ftree.heights', 'cpu', 'TransformedParameter with a parametric transform')],
+        'module': [('mp', 'cpu', 'ModuleParameter')],
+    }
+    return {f'{t}.{m}({"torch.float64" if m == "to" else ""}) [{what}]': ('convert', t, m) for t, m, what in table.get(scen, [])}
+
+
+def ops_kind(scen, oname):
+    o = loop_ops(scen).get(oname) or convert_ops(scen).get(oname)
+    return o[0] if o else 'base'
+
+
+def all_ops(scen, ops):
+    out = dict(ops)
+    out.update(loop_ops(scen))
+    out.update(convert_ops(scen))
+    return out
+
+
+def loop_name(op):
+    if op[0] == 'optimizer':
+        return 'Optimizer._run_closure (LBFGS)' if op[1]['algo'] == 'LBFGS' else 'Optimizer._run'
+    kinds = sorted({OPCLS[k] for k, _ in op[1]['ops']})
+    return 'MCMC.run with ' + '+'.join(kinds)
+
+
+class Retry(Exception):
+    """the requested accept / reject decision is not reachable at this witness: the task is re-run with other draws"""
+
+
+XI_WITNESS = (0.3, 0.8, 0.12, 0.62, 0.93, 0.45, 0.05, 0.71, 0.38, 0.55)
+
+
+class Hook:
+    """logger handed to the real loop: Optimizer._run calls logger(epoch), MCMC.run calls logger.log(sample=epoch)"""
+
+    def __init__(self, fn, who):
+        self.fn, self.who = fn, who
+
+    def initialize(self):
+        pass
+
+    def close(self):
+        pass
+
+    def __call__(self, epoch=None, **kw):
+        self.fn(f'inside {self.who}, after iteration {epoch}')
+
+    def log(self, *a, **kw):
+        sample = kw.get('sample', a[0] if a else None)
+        if sample:  # sample 0 = before the first iteration
+            self.fn(f'inside {self.who}, after iteration {sample}')
+
+
+def _clamp(v, lo, hi):
+    return min(max(float(v), lo), hi)
+
+
+class Num:
+    """source of the scalar inputs of a loop (learning rate, tuning parameters, draws): symbols with a witness in the
+    symbolic run (constrained to [lo, hi] / (lo, hi)), clamped numbers of the counterexample in the replay"""
+
+    def __init__(self, k, dom=None, vals=None, attempt=0):
+        self.k, self.dom, self.vals, self.sym, self.attempt = k, dom, vals, vals is None, attempt
+
+    def vary(self, witness, lo, hi):
+        """another witness for another attempt (a planned accept / reject decision was not reachable at the previous one)"""
+        w = witness * (1.0 + 0.31 * self.attempt) if self.attempt % 2 == 0 else witness / (1.0 + 0.43 * self.attempt)
+        return w if lo < w < hi else witness
+
+    def name(self, nm):
+        return f'v{self.k}_{nm}'
+
+    def node(self, nm, witness, lo, hi, strict=True):
+        d = cur().dag
+        n = d.var(self.name(nm), witness)
+        cmp_ = d.lt if strict else d.le
+        self.dom += [cmp_(d.const(lo), n), d.lt(n, d.const(hi))]
+        return n
+
+    def scalar(self, nm, witness, lo, hi, strict=True):
+        if self.sym:
+            from symtorch.tensor import mkfloat
+
+            return mkfloat(self.node(nm, self.vary(witness, lo, hi), lo, hi, strict))
+        eps = (hi - lo) * 1e-6
+        return _clamp(self.vals.get(self.name(nm), witness), lo + (eps if strict else 0.0), hi - eps)
+
+    def tensor1(self, nm, witness, lo, hi, strict=False):
+        if self.sym:
+            return from_ids(torch.tensor([self.node(nm, witness, lo, hi, strict)], dtype=torch.int64))
+        return torch.tensor([self.scalar(nm, witness, lo, hi, strict)], dtype=torch.float64)
+
+    def vector(self, nm, witness):
+        if self.sym:
+            return new_vars(self.name(nm), torch.tensor(witness, dtype=torch.float64))
+        names = cm.names_shaped(self.name(nm), (len(witness),))
+        return torch.tensor([_clamp(self.vals.get(n, w), -3.0, 3.0) for n, w in zip(names, witness)], dtype=torch.float64)
+
+
+def run_optimizer(dic, cfg, num, checkpoint):
+    """the real torchtree Optimizer (from_json -> run) on the objects of `dic`"""
+    from torchtree.optim.optimizer import Optimizer
+
+    if num.sym:
+        from chk.c17_resume import install_handlers
+
+        install_handlers()  # lerp_/addcmul_/addcdiv_/add(alpha=) of torch.optim's single-tensor update rules
+    lr = num.scalar('lr', 2e-5 if cfg['algo'] != 'LBFGS' else 1e-3, 0.0, 0.01)
+    options = dict(cfg['options'], lr=lr)
+    groups = []
+    for i, g in enumerate(cfg['groups']):
+        grp = {'params': list(g)}
+        if i:
+            grp['lr'] = lr * 0.5  # per-group hyper-parameter
+        groups.append(grp)
+    spec = {'id': num.name('optimizer'), 'type': 'Optimizer', 'algorithm': 'torch.optim.' + cfg['algo'], 'options': options,
+            'maximize': True, 'loss': cfg['loss'], 'iterations': cfg['iters'], 'checkpoint': False, 'parameters': groups}
+    opt = Optimizer.from_json(spec, dic)
+    if cfg['hook']:
+        opt.loggers = [Hook(checkpoint, 'Optimizer.run')]
+    import torch.optim.lbfgs as lbfgs
+
+    if num.sym and cfg['algo'] == 'LBFGS':
+        # torch.optim.LBFGS converts the loss with float(): only its control flow uses the number; the conversion keeps the
+        # expression (SymFloat), so the decisions taken on it are recorded as path conditions
+        from symtorch.ext_c15 import as_scalar
+
+        lbfgs.float = as_scalar
+    try:
+        with contextlib.redirect_stdout(io.StringIO()), warnings.catch_warnings():
+            warnings.simplefilter('ignore')
+            opt.run()
+    finally:
+        lbfgs.__dict__.pop('float', None)
+    return opt
+
+
+OPCLS = {'scaler': 'ScalerOperator', 'slide': 'SlidingWindowOperator', 'hmc': 'HMCOperator'}
+
+
+def run_mcmc(dic, cfg, num, checkpoint, attempt=0):
+    """the real MCMC.run with real operators on the objects of `dic`; every random draw is an input: the operator index
+    is the planned one, the proposal draw xi_i and the momentum are symbols / replayed numbers, and the uniform draw u_i
+    of the acceptance test is a symbol whose witness is placed below / above the acceptance probability of the
+    witness run according to the planned decision."""
+    import torchtree.inference.hmc.integrator  # noqa (class registration)
+    import torchtree.inference.hmc.operator as hmcop
+    from torchtree.core.utils import process_object
+    from torchtree.inference.mcmc import mcmc as mcmod
+    from torchtree.inference.mcmc import operator as opmod
+
+    sym = num.sym
+    joint = dic[cfg['joint']]
+    operators = []
+    for j, (kind, pids) in enumerate(cfg['ops']):
+        js = {'id': num.name(f'operator{j}'), 'type': OPCLS[kind], 'parameters': list(pids), 'weight': 1.0 + j}
+        if kind == 'scaler':
+            js['scaler'] = num.scalar(f'scaler{j}', 0.8, 0.5, 1.0)
+        elif kind == 'slide':
+            js['width'] = num.scalar(f'width{j}', 0.1, 0.0, 0.2)
+        else:
+            dim = sum(dic[p].tensor.shape[-1] for p in pids)
+            js.update({'joint': cfg['joint'], 'disable_adaptation': True,
+                       'integrator': {'id': num.name(f'integrator{j}'), 'type': 'LeapfrogIntegrator', 'steps': 1,
+                                      'step_size': num.scalar(f'eps{j}', 4e-3, 0.0, 0.01)},
+                       'mass_matrix': {'id': num.name(f'mass{j}'), 'type': 'Parameter', 'tensor': [1.0] * dim}})
+        op = process_object(js, dic)
+        if kind == 'hmc':
+            op._hamiltonian.sample_momentum = (lambda jj, dd: (lambda mm: num.vector(
+                f'momentum{jj}_{st["it"]}', [round((0.3 - 0.25 * i) * (-1) ** (attempt * (i + 1)) + 0.11 * attempt, 3)
+                                             for i in range(dd)])))(j, dim)
+        operators.append(op)
+    st = {'it': -1, 'in_step': False, 'lj': None, 'ljp': None, 'h': None, 'decisions': []}
+    loggers = [Hook(checkpoint, 'MCMC.run')] if cfg['hook'] else ()
+    mc = mcmod.MCMC(num.name('mcmc'), joint, operators, len(cfg['plan']), loggers=loggers, every=0, checkpoint=None)
+
+    def witness(x):
+        if isinstance(x, SymTensor):
+            return float(x._v.reshape(-1)[0])
+        return float(x.reshape(-1)[0]) if isinstance(x, torch.Tensor) else float(x)
+
+    def rec_joint(*a, **k):
+        v = joint(*a, **k)
+        if st['lj'] is None:
+            st['lj'] = witness(v)
+        else:
+            st['ljp'] = witness(v)
+        return v
+
+    mc.joint = rec_joint
+    for op in operators:
+        def wrap(op):
+            real_step, real_accept, real_reject = op.step, op.accept, op.reject
+
+            def step():
+                st['in_step'] = True
+                try:
+                    h = real_step()
+                finally:
+                    st['in_step'] = False
+                st['h'] = witness(h)
+                st['pending'] = real_reject
+                return h
+
+            def accept():
+                st['decisions'].append('accept')
+                st['lj'] = st['ljp']
+                st['pending'] = None
+                real_accept()
+
+            def reject():
+                st['decisions'].append('reject')
+                st['pending'] = None
+                real_reject()
+
+            op.step, op.accept, op.reject = step, accept, reject
+
+        wrap(op)
+
+    def fake_rand(*size, **kw):
+        it = st['it']
+        if st['in_step']:
+            return num.tensor1(f'xi{it}', XI_WITNESS[(attempt + it) % len(XI_WITNESS)], 0.0, 1.0)
+        la = (st['ljp'] - st['lj']) + st['h']
+        acc = math.exp(min(0.0, la)) if la == la else float('nan')
+        want = cfg['plan'][it][1]
+        if not (acc == acc) or (want == 'accept' and acc <= 1e-12) or (want == 'reject' and acc >= 1.0 - 1e-9):
+            raise Retry(f'iteration {it + 1}: acceptance probability {acc} at the witness, decision "{want}" not reachable')
+        u = acc / 2 if want == 'accept' else (acc + 1.0) / 2
+        if sym:
+            return num.tensor1(f'u{it}', u, 0.0, 1.0)
+        return torch.tensor([u], dtype=torch.float64)  # the replay places the draw the same way (decision = part of the operation)
+
+    def fake_randint(lo, hi, size, **kw):
+        return torch.zeros(size, dtype=torch.int64) + lo
+
+    def fake_categorical_sample(self_, *a, **k):
+        st['it'] += 1
+        return torch.tensor(cfg['plan'][st['it']][0])
+
+    saved = (torch.rand, torch.randint, torch.distributions.Categorical.sample, opmod.math, hmcop.math)
+    torch.rand, torch.randint, torch.distributions.Categorical.sample = fake_rand, fake_randint, fake_categorical_sample
+    if sym:
+        opmod.math = hmcop.math = SymMath()
+    try:
+        with contextlib.redirect_stdout(io.StringIO()), warnings.catch_warnings():
+            warnings.simplefilter('ignore')
+            mc.run()
+    except Retry:
+        if st.get('pending'):
+            st['pending']()  # (replay) the proposal whose decision could not be placed is taken back by the real reject()
+        raise
+    finally:
+        torch.rand, torch.randint, torch.distributions.Categorical.sample, opmod.math, hmcop.math = saved
+    planned = [p[1] for p in cfg['plan']]
+    if st['decisions'] != planned:
+        raise Retry(f'MCMC.run took the decisions {st["decisions"]}, planned {planned}')
+    return mc
 
 
 # ------------------------------------------------------------------ sampler stub (common random numbers)
@@ -385,11 +960,13 @@ def sampler_stub(noise):
 
 
 # ------------------------------------------------------------------ machinery
-def p_witness():
+def p_witness(salt=0):
+    """witness interpretation of the uninterpreted transition probabilities (row-stochastic); salt: another interpretation
+    for another attempt of a history whose planned accept / reject decision was not reachable (salt 0 = the original one)"""
     def mk(i, j):
         def f(t, *rest):
             x = math.sin(12.9898 * (t + 0.37 + 0.01 * sum(rest)) * (i * 4 + j + 1)) * 43758.5453
-            raw = [0.05 + 0.9 * ((math.sin(12.9898 * (t + 0.37 + 0.01 * sum(rest)) * (i * 4 + jj + 1)) * 43758.5453) % 1.0)
+            raw = [0.05 + 0.9 * ((math.sin(12.9898 * (t + 0.37 + 0.01 * sum(rest) + 0.0713 * salt) * (i * 4 + jj + 1)) * 43758.5453) % 1.0)
                    for jj in range(4)]
             return raw[j] / sum(raw)
 
@@ -403,7 +980,10 @@ def install_p_stub(subst):
     so that a stale substitution-model value is visible."""
     def p_t(branch_lengths):
         d = cur().dag
-        extra = subst.kappa._ids.reshape(-1).tolist() + subst.frequencies._ids.reshape(-1).tolist()
+        if hasattr(subst, 'kappa'):
+            extra = subst.kappa._ids.reshape(-1).tolist() + subst.frequencies._ids.reshape(-1).tolist()
+        else:  # GTR: rates, frequencies
+            extra = [i for p in subst.parameters() for i in p.tensor._ids.reshape(-1).tolist()]
         ids = branch_lengths._ids
         out = []
         for b in ids.reshape(-1).tolist():
@@ -411,6 +991,21 @@ def install_p_stub(subst):
         return from_ids(torch.tensor(out, dtype=torch.int64).reshape(tuple(ids.shape) + (4, 4)))
 
     subst.p_t = p_t
+
+
+def register_more():
+    """class registration of the modules the later scenarios use"""
+    import torchtree.distributions.bayesian_bridge  # noqa
+    import torchtree.distributions.gmrf_integrated  # noqa
+    import torchtree.distributions.scale_mixture  # noqa
+    import torchtree.distributions.tree_prior  # noqa
+    import torchtree.evolution.bdsk  # noqa
+    import torchtree.evolution.birth_death  # noqa
+    import torchtree.evolution.poisson_tree_likelihood  # noqa
+    import torchtree.evolution.root_transform  # noqa
+    import torchtree.evolution.tree_height_transform  # noqa
+    import torchtree.evolution.tree_model_flexible  # noqa
+    import torchtree.nn.module  # noqa
 
 
 def build(name):
@@ -421,6 +1016,7 @@ def build(name):
     import torchtree.evolution.coalescent  # noqa
     import torchtree.evolution.substitution_model.codon  # noqa
     import torchtree.evolution.tree_likelihood  # noqa
+    register_more()
     from torchtree.core.utils import process_objects
 
     import torchtree.distributions.deterministic_normal  # noqa
@@ -441,6 +1037,15 @@ def build(name):
 ROUND_WITNESS = False  # set for the variational scenario: short decimals keep the ground guard queries small
 
 
+def set_state(scen, dic, pname, tensor):
+    """give a base parameter its state: through the public setter, or (tensor owned by a torch.nn.Module) in place + notification"""
+    if pname in INPLACE_ONLY.get(scen, ()):
+        dic[pname].tensor[...] = tensor
+        dic[pname].fire_parameter_changed()
+    else:
+        dic[pname].tensor = tensor
+
+
 def fresh_values(counter, pname, shape, rng):
     lo, hi = rng
     n = 1
@@ -455,14 +1060,24 @@ def fresh_values(counter, pname, shape, rng):
     return new_vars(f'v{k}_{pname}', torch.tensor(vals, dtype=torch.float64).reshape(shape))
 
 
-def apply_op(dic, op, counter, dom):
+def apply_op(dic, op, counter, dom, checkpoint=None, attempt=0):
     """Apply one update operation with fresh symbols; returns nothing (state is in the base Parameters)."""
     from torchtree.inference.mcmc import operator as opmod
 
     kind, target, rng = op
     d = cur().dag
+    if kind == 'optimizer':
+        return run_optimizer(dic, target, Num(next(counter), dom, attempt=attempt), checkpoint)
+    if kind == 'mcmc':
+        return run_mcmc(dic, target, Num(next(counter), dom, attempt=attempt), checkpoint, attempt)
     obj = dic[target]
-    if kind == 'assign':
+    if kind == 'convert':
+        # device / dtype conversion through the parameter interface (AbstractParameter.cpu / .to): the identity here
+        if rng == 'cpu':
+            obj.cpu()
+        else:
+            obj.to(torch.float64)
+    elif kind == 'assign':
         v = fresh_values(counter, target, tuple(obj.tensor.shape), rng)
         for i in v._ids.reshape(-1).tolist():
             dom.append(d.lt(d.const(rng[0] - 1e-9), i))
@@ -549,6 +1164,16 @@ def parse_label(label):
 
 
 def run_task(task, tr):
+    last = None
+    for attempt in range(len(XI_WITNESS)):
+        try:
+            return _run_task_outer(task, tr, attempt)
+        except Retry as e:  # the planned accept / reject decision was not reachable with these proposal draws
+            last = e
+    tr.inconc(f'{make_label(task[0], task[1], task[2] if len(task) > 2 else None)}: {last}')
+
+
+def _run_task_outer(task, tr, attempt=0):
     scen = task[0]
     if scen in STOCHASTIC:
         import torchtree.distributions.deterministic_normal as dnmod
@@ -574,13 +1199,13 @@ def run_task(task, tr):
         ROUND_WITNESS = True
         try:
             with sampler_stub(symbolic_noise):
-                return _run_task(task, tr)
+                return _run_task(task, tr, attempt)
         finally:
             ROUND_WITNESS = False
-    return _run_task(task, tr)
+    return _run_task(task, tr, attempt)
 
 
-def _run_task(task, tr):
+def _run_task(task, tr, attempt=0):
     from torchtree.core import model as coremodel
     from torchtree.core import parameter as coreparam
 
@@ -592,21 +1217,86 @@ def _run_task(task, tr):
           coreparam.CatParameter.handle_parameter_changed, coreparam.ViewParameter.handle_parameter_changed,
           coremodel.CallableModel.__call__, coremodel.CallableModel.handle_parameter_changed,
           coremodel.CallableModel.handle_model_changed)
+    tr.fn(coreparam.TransformedParameter.cpu, coreparam.TransformedParameter.to, coreparam.CatParameter.cpu, coreparam.ViewParameter.cpu,
+          coreparam.ModuleParameter.handle_model_changed)
+    if scen == 'unrooted':
+        from torchtree.distributions.bayesian_bridge import BayesianBridge
+        from torchtree.distributions.gmrf_integrated import GMRFGammaIntegrated
+        from torchtree.distributions.scale_mixture import ScaleMixtureNormal
+        from torchtree.distributions.tree_prior import CompoundGammaDirichletPrior
+        from torchtree.evolution.site_model import ConstantSiteModel
+        from torchtree.evolution.substitution_model.nucleotide import GTR
+        from torchtree.evolution.tree_model import UnRootedTreeModel
+
+        tr.fn(CompoundGammaDirichletPrior._call, CompoundGammaDirichletPrior.handle_parameter_changed, UnRootedTreeModel.handle_parameter_changed,
+              GTR.handle_parameter_changed, ConstantSiteModel.rates, BayesianBridge._call, ScaleMixtureNormal._call, GMRFGammaIntegrated._call)
+    elif scen == 'epidemic':
+        from torchtree.evolution.bdsk import BDSKModel
+        from torchtree.evolution.birth_death import BirthDeathModel
+        from torchtree.evolution.coalescent import (ConstantCoalescentIntegratedModel, ExponentialCoalescentModel,
+                                                    PiecewiseLinearCoalescentGridModel)
+        from torchtree.evolution.poisson_tree_likelihood import PoissonTreeLikelihood
+        from torchtree.evolution.tree_model import TimeTreeModel
+        from torchtree.evolution.tree_model_flexible import FlexibleTimeTreeModel
+
+        tr.fn(BirthDeathModel._call, BirthDeathModel.handle_model_changed, BDSKModel._call, ExponentialCoalescentModel.distribution,
+              PiecewiseLinearCoalescentGridModel.distribution, ConstantCoalescentIntegratedModel._call, PoissonTreeLikelihood._call,
+              PoissonTreeLikelihood.handle_parameter_changed, TimeTreeModel.handle_parameter_changed, FlexibleTimeTreeModel.from_json)
+    elif scen == 'module':
+        from torchtree.nn.module import Module
+
+        tr.fn(Module._call, coreparam.ModuleParameter.tensor.fget)
+    if any(ops_kind(scen, o) in ('optimizer', 'mcmc') for o in history):
+        import torchtree.inference.hmc.operator as hmcop
+        from torchtree.inference.hmc.integrator import LeapfrogIntegrator
+        from torchtree.inference.mcmc import operator as opmod
+        from torchtree.inference.mcmc.mcmc import MCMC
+        from torchtree.inference.utils import extract_tensors_and_parameters
+        from torchtree.optim.optimizer import Optimizer
+
+        tr.fn(Optimizer.from_json, Optimizer.run, Optimizer._run, Optimizer._run_closure, extract_tensors_and_parameters, MCMC.run,
+              opmod.MCMCOperator.step, opmod.MCMCOperator.accept, opmod.MCMCOperator.reject, opmod.ScalerOperator._step,
+              opmod.SlidingWindowOperator._step, hmcop.HMCOperator._step, LeapfrogIntegrator.__call__)
+        tr.stubs |= {
+            'real loops: torch.optim update rules run on SymTensors through the handlers of chk/c17_resume.install_handlers '
+            '(lerp_/addcmul_/addcdiv_/add(alpha=)); float() inside torch.optim.lbfgs keeps the expression (SymFloat)',
+            'real loops: every random draw of MCMC.run is an input - Categorical.sample = the planned operator, torch.randint = first '
+            'parameter / coordinate, torch.rand inside an operator = symbol xi in [0,1), Hamiltonian.sample_momentum = vector of '
+            'symbols, torch.rand of the acceptance test = symbol u in [0,1) whose WITNESS is placed below / above the acceptance '
+            'probability of the witness run according to the planned decision (accept / reject are two separate histories); '
+            'math of the operator modules = SymMath; print silenced',
+        }
+        tr.bounds['real loops'] = (
+            'Optimizer.run: torch.optim.SGD (plain; momentum + weight decay), Adam, LBFGS(max_iter 1 / 2) for 1-2 iterations, 1-2 '
+            'parameter groups (the second with its own learning rate), parameters named directly or through a Parametric '
+            '(TransformedParameter, Module), loss = -joint (phylogenetic / time-tree / smoothing / unrooted / epidemic / module '
+            'graphs) or -ELBO / KLpq (variational graph), learning rate symbolic in (0, 0.01); scheduler, convergence check and '
+            'the `distributions` option are not used.  MCMC.run: 1-2 iterations, 1-2 operators out of ScalerOperator / '
+            'SlidingWindowOperator / HMCOperator(LeapfrogIntegrator, 1 step, diagonal unit mass matrix, adaptation off), tuning '
+            'parameters symbolic, both decisions of every iteration (thorough: all four combinations of two iterations).  '
+            'Comparison after the loop and (hook variants) after every iteration, through the logger interface the loops offer.  '
+            'Decisions taken on values inside the loops (finite-gradient test, LBFGS termination tests, min(0, log alpha), the '
+            'acceptance test) are path conditions of the witness region.')
     tr.bounds['histories'] = ('all histories of <= 2 (quick) / 3 (thorough, sampled) update operations, each followed by evaluation of '
                               'every model value; observer-subset histories: only one observer (thorough: also every ordered pair of '
                               'observers of the variational scenario) is evaluated before / between / after the updates, so that the '
-                              'models it does not read through __call__ keep an invalid cache')
+                              'models it does not read through __call__ keep an invalid cache; real-loop histories: one loop alone, '
+                              'with one observer / an ordered pair of tree accessors only, an assignment before / after it, the same '
+                              'loop twice, an optimiser loop followed by a sampler loop and vice versa (quick: a selection; thorough: '
+                              'every assignment, every observer, every such pair); conversion histories: cpu() / to(float64) of a '
+                              'parameter alone, before / after an assignment, twice with one observer')
     with tracing() as t:
         d = t.dag
-        d.uf_eval.update(p_witness())
+        d.uf_eval.update(p_witness(attempt))
         counter = itertools.count()
         dom = []
         A, base, evaluators, ops = build(scen)
+        ops = all_ops(scen, ops)
         # initial symbolic state
         for pname, vals in base.items():
             st = new_vars(f'init_{pname}', torch.tensor(vals, dtype=torch.float64))
             try:
-                A[pname].tensor = st
+                set_state(scen, A, pname, st)
             except Exception as e:
                 tr.violation(f'update-raises:{scen}:assign:{pname}',
                              f'{scen}: assigning parameter "{pname}" raised {type(e).__name__}: {e}',
@@ -631,26 +1321,96 @@ def _run_task(task, tr):
             B, _, _, _ = build(scen)
             for pname in base:
                 cur_t = A[pname].tensor
-                B[pname].tensor = from_ids(cur_t._ids.clone()) if isinstance(cur_t, SymTensor) else cur_t.clone()
+                set_state(scen, B, pname, from_ids(cur_t._ids.clone()) if isinstance(cur_t, SymTensor) else cur_t.clone())
             return B
 
         effect_checks = []
+        loopy = any(ops[o][0] in ('optimizer', 'mcmc') for o in history)
+        fast = loopy or scen in WITNESS_FIRST
+        # signature of a stale observer: it names the real loop when the step under examination IS that loop (or a later step
+        # of a history in which the loop already left something that is not syntactically fresh), otherwise observer only
+        loop_tag = []
+        tainted = []
+
+        first_sig = {}  # an observer that was already not syntactically fresh at an earlier step keeps the signature it got there
+
+        def sig_of(en, suspicious=False):
+            if en in first_sig:
+                return first_sig[en]
+            tag = loop_tag[0] if loop_tag else (tainted[0] if tainted else None)
+            sig = f'stale:{scen}:{en}' + (f':after {tag}' if tag else '')
+            if suspicious:
+                first_sig[en] = sig
+            return sig
+
+        def add_goals(tag, got, want):
+            for en in evaluators:
+                a, b = got[en], want[en]
+                if len(a) != len(b):
+                    goals.append((f'{tag}: {en} has the shape of a fresh rebuild', d.FALSE, [], sig_of(en, True)))
+                else:
+                    node = d.and_(*[d.eq(x, y) for x, y in zip(a, b)])
+                    if node != d.TRUE:
+                        node = strip_stops(d, node)
+                        if node == d.TRUE and len(tr.notes) < 3:
+                            tr.notes.append(f'{label}: {tag} the cached {en} equals the fresh value but was '
+                                            'computed under no_grad / detach (it carries no autograd graph): a gradient-level '
+                                            'difference, outside the value statement of C11')
+                    if node != d.TRUE and loop_tag and not tainted:
+                        tainted.append(loop_tag[0])
+                    goals.append((f'{tag}: {en} == value of a freshly built copy', node, [], sig_of(en, node != d.TRUE)))
+
+        inside = []
+
+        def checkpoint(tag):
+            """called by the logger hook of a real loop after each of its iterations"""
+            B = fresh_copy()
+            got = evaluate(A)
+            add_goals(f'step {inside[0] + 1} ({inside[1]}), {tag}', got, evaluate(B))
 
         try:
             prev = evaluate(A)  # warm every cache
             for step, oname in enumerate(history):
+                kind = ops[oname][0]
+                inside[:] = [step, oname]
+                loop_tag[:] = [loop_name(ops[oname])] if kind in ('optimizer', 'mcmc') else []
                 try:
-                    apply_op(A, ops[oname], counter, dom)
+                    apply_op(A, ops[oname], counter, dom, checkpoint, attempt)
+                except Retry:
+                    raise
                 except Exception as e:
-                    tr.violation(f'update-raises:{scen}:{oname}', f'{label}: operation "{oname}" raised {type(e).__name__}: {e}',
-                                 {'scenario': scen, 'history': list(history)})
+                    from symtorch.expr import EngineError
+
+                    if isinstance(e, EngineError):
+                        tr.inconc(f'{label}: the engine cannot execute operation "{oname}": {type(e).__name__}: {e}')
+                        return
+                    # "a parameter update never raises": confirmed on plain tensors before it is reported
+                    wit = {n: d.vals[i] for n, i in d.var_ids.items()}
+                    ok, detail = replay_history(scen, history, wit, only, raises_only=True)
+                    if ok and detail.startswith('raised'):
+                        where = detail.split('[')[-1].rstrip(']') if detail.endswith(']') else ''
+                        if kind in ('optimizer', 'mcmc'):
+                            sig = f'update-raises:{loop_name(ops[oname])}:{type(e).__name__} in {where}'
+                        elif kind == 'convert':
+                            sig = f'update-raises:{type(A[ops[oname][1]]).__name__}.{ops[oname][2]}:{type(e).__name__}'
+                        else:
+                            sig = f'update-raises:{scen}:{oname}' 
+                        tr.violation(sig, f'{label}: operation "{oname}" raised {type(e).__name__}: {e} '
+                                     f'(plain tensors: {detail})', {'scenario': scen, 'history': list(history), 'label': label,
+                                                                    'values': wit})
+                    else:
+                        import traceback
+
+                        tr.inconc(f'{label}: operation "{oname}" raised {type(e).__name__}: {e} on the symbolic run but the replay '
+                                  f'on plain tensors says: {detail} {traceback.format_exc()[-700:]}')
                     return
                 B = fresh_copy()  # holds the state the update left (an evaluation may draw, i.e. change x / z_unc / w itself)
                 got = evaluate(A)
                 want = evaluate(B)
-                if ops[oname][0] != 'op_reject':
+                no_effect = kind in ('op_reject', 'convert') or (kind == 'mcmc' and all(p[1] == 'reject' for p in ops[oname][1]['plan']))
+                if not no_effect:
                     cands = []
-                    if onlys and scen in STOCHASTIC:
+                    if onlys and scen in STOCHASTIC and kind not in ('optimizer', 'mcmc'):
                         # single-observer guard: the value a FRESH copy returns after the update can differ from the value
                         # before it, for every observer that depends on a written parameter (independent of the caches of A)
                         deps, redrawn = [], False
@@ -668,33 +1428,28 @@ def _run_task(task, tr):
                         if deps:
                             effect_checks.append((step, oname, [c[1] for c in sorted(cands)] or [d.TRUE]))
                     else:
+                        # (the value of a FRESH copy after the update, so that the guard does not depend on A's caches; on a tree
+                        # without stale caches it is the same expression as A's own value)
+                        after = got if (scen in STOCHASTIC and kind not in ('optimizer', 'mcmc')) else want
                         for en in evaluators:
-                            for x, y in zip(prev[en], got[en]):
+                            for x, y in zip(prev[en], after[en]):
                                 if x != y:
-                                    cands.append((d.size([x, y]), d.eq(x, y)))
-                        if scen in STOCHASTIC:
+                                    same = strip_stops(d, d.eq(x, y)) if loopy else d.eq(x, y)  # MCMC.run evaluates under no_grad
+                                    if same != d.TRUE:
+                                        cands.append((d.size([same]), same))
+                        if scen in STOCHASTIC or fast:
                             # x = loc + eps * scale makes (x - loc) / scale syntactically new but equal: try the next candidates
                             effect_checks.append((step, oname, [c[1] for c in sorted(cands)] or [d.TRUE]))
                         else:
                             effect_checks.append((step, oname, [min(cands)[1] if cands else d.TRUE]))
                 prev = got
-                for en in evaluators:
-                    a, b = got[en], want[en]
-                    if len(a) != len(b):
-                        goals.append((f'after step {step + 1} ({oname}): {en} has the shape of a fresh rebuild', d.FALSE, [],
-                                      f'stale:{scen}:{en}'))
-                    else:
-                        node = d.and_(*[d.eq(x, y) for x, y in zip(a, b)])
-                        if node != d.TRUE:
-                            node = strip_stops(d, node)
-                            if node == d.TRUE and len(tr.notes) < 3:
-                                tr.notes.append(f'{label}: after step {step + 1} the cached {en} equals the fresh value but was '
-                                                'computed under no_grad / detach (it carries no autograd graph): a gradient-level '
-                                                'difference, outside the value statement of C11')
-                        goals.append((f'after step {step + 1} ({oname}): {en} == value of a freshly built copy', node, [],
-                                      f'stale:{scen}:{en}'))
+                add_goals(f'after step {step + 1} ({oname})', got, want)
+        except Retry:
+            raise
         except Exception as e:
-            tr.inconc(f'{label}: harness raised {type(e).__name__}: {e}')
+            import traceback
+
+            tr.inconc(f'{label}: harness raised {type(e).__name__}: {e} {traceback.format_exc()[-600:]}')
             return
         if t.concretized:
             tr.inconc(f'{label}: concretised {t.concretized[:2]}')
@@ -712,9 +1467,9 @@ def _run_task(task, tr):
         # comparison with the fresh copy could not see a stale cache
         from symtorch.explore import prove
 
-        def guard(same):
+        def guard(same, at_witness=False):
             hyps = dom + list(t.pcs)
-            if scen not in STOCHASTIC or same == d.TRUE:
+            if (scen not in STOCHASTIC and not at_witness) or same == d.TRUE:
                 return prove(d, hyps, same, timeout=20, tr=tr, label='vacuity guard', parallel=True)[0]
             # The guard is an existence statement (sat expected) and the general query over logsumexp towers is undecided
             # within 20 s, so the solver is asked at the witness point first: (1) every variable replaced by its witness
@@ -731,8 +1486,21 @@ def _run_task(task, tr):
                     break
             return st
 
+        def refute_at_witness(node):
+            roots = [node] + dom + list(t.pcs)
+            nodes = d.topo(roots)
+            pin = {i: d.const(d.vals[i]) for i in nodes if d.ops[i] == 'var'}
+            pin.update({i: d.const(float(f'{d.vals[i]:.12g}')) for i in nodes if d.ops[i] == 'uf' and math.isfinite(d.vals[i])})
+            rs = d.substitute(roots, pin)
+            return prove(d, rs[1:], rs[0], timeout=20, tr=tr, label='stale at the witness', parallel=True)[0]
+
+        def short(vals):
+            return {k: (round(v, 6) if isinstance(v, float) else v) for k, v in list(vals.items())[:12]}
+
         seen_draws = set()
-        for step, oname, sames in ([] if (onlys and scen not in STOCHASTIC) else effect_checks):
+        # (observer-subset histories around a real loop carry no guard: the observer need not depend on what the loop
+        # moves; the same loop with every observer evaluated carries it)
+        for step, oname, sames in ([] if (onlys and (scen not in STOCHASTIC or loopy)) else effect_checks):
             if ops[oname][0] == 'draw':
                 # common random numbers: repeating a draw of the same shape re-assigns the same value
                 if oname in seen_draws:
@@ -740,25 +1508,49 @@ def _run_task(task, tr):
                 seen_draws.add(oname)
             st = 'proved'
             for same in sames[:32]:  # (x - loc) / scale of a re-drawn x: up to one equal candidate per element
-                st = guard(same)
+                st = guard(same, at_witness=fast)  # expressions left by a real loop / heavy densities: at the witness point first
                 if st == 'refuted':
                     break
             if st != 'refuted':
                 tr.inconc(f'{label}: vacuity guard: operation "{oname}" has no observable effect on any evaluated value ({st})')
 
+        if fast:
+            # The expressions a real loop leaves (gradients of the joint) make the sat side of a general query slow.  A goal
+            # that is false AT THE WITNESS is therefore first put to the solver with every variable and every uninterpreted
+            # application replaced by its witness value (ground rational arithmetic; an under-approximation that can only
+            # FIND a violation); `sat` there = the witness is the counterexample, which is replayed on plain tensors.
+            wit = {n: d.vals[i] for n, i in d.var_ids.items()}
+            rest, reported = [], set()
+            for g in goals:
+                node = g[1]
+                if node == d.TRUE or (node != d.FALSE and bool(d.vals[node])):
+                    rest.append(g)
+                    continue
+                if g[3] in reported:
+                    continue  # the same observer is already reported for this history
+                st = 'refuted' if node == d.FALSE else refute_at_witness(node)
+                if st == 'refuted':
+                    ok, detail = replay(wit)
+                    if ok:
+                        tr.violation(g[3], f'{label}: {g[0]} fails at the witness {short(wit)}: {detail}', {'label': label, 'values': wit})
+                        reported.add(g[3])
+                        continue
+                rest.append(g)
+            goals = rest
         cm.discharge(tr, d, dom + twin_hyps + list(t.pcs), goals, label, replay=replay, varnodes=V, defined=False, timeout=30,
                      threads=4, parallel=True)
 
 
 # ------------------------------------------------------------------ replay (plain tensors, real HKY p_t)
-def replay_history(scen, history, vals, only=None):
+def replay_history(scen, history, vals, only=None, raises_only=False):
+    """raises_only: the question is whether an operation raises on plain tensors (stale values met on the way are not reported)"""
     if scen in STOCHASTIC:
         with sampler_stub(concrete_noise(vals)):
-            return _replay_history(scen, history, vals, only)
-    return _replay_history(scen, history, vals, only)
+            return _replay_history(scen, history, vals, only, raises_only)
+    return _replay_history(scen, history, vals, only, raises_only)
 
 
-def _replay_history(scen, history, vals, only=None):
+def _replay_history(scen, history, vals, only=None, raises_only=False):
     from torchtree.core.utils import process_objects
     from torchtree.inference.mcmc import operator as opmod
 
@@ -772,7 +1564,9 @@ def _replay_history(scen, history, vals, only=None):
     import torchtree.distributions.deterministic_normal  # noqa
     import torchtree.variational  # noqa
 
+    register_more()
     spec, base, evaluators, ops = SCENARIOS[scen]()
+    ops = all_ops(scen, ops)
     if as_tuple(only):
         evaluators = {o: evaluators[o] for o in as_tuple(only)}
 
@@ -781,7 +1575,7 @@ def _replay_history(scen, history, vals, only=None):
         for obj in spec:
             process_objects(obj, dic)
         for pname, v in base.items():
-            dic[pname].tensor = torch.tensor(v, dtype=torch.float64)
+            set_state(scen, dic, pname, torch.tensor(v, dtype=torch.float64))
         if 'dq' in dic:
             dic['dq'].eps = concrete_noise(vals)(tuple(dic['dq'].eps.shape), 'dn_eps')
         return dic
@@ -803,12 +1597,56 @@ def _replay_history(scen, history, vals, only=None):
     def ev(D):
         return {en: f(D).detach().clone().to(torch.float64) for en, f in evaluators.items()}
 
+    def differ(tag):
+        if raises_only:
+            ev(A)
+            return None
+        B = mk()
+        for pname in base:
+            set_state(scen, B, pname, A[pname].tensor.detach().clone())
+        got = ev(A)
+        want = ev(B)
+        for en in evaluators:
+            if got[en].shape != want[en].shape or not torch.allclose(got[en], want[en], rtol=1e-9, atol=1e-12, equal_nan=True):
+                return f'{tag}: {en} = {got[en].tolist()} but a freshly built copy gives {want[en].tolist()}'
+        return None
+
+    found = []
+
+    def checkpoint(tag):
+        if not found:
+            r = differ(tag)
+            if r:
+                found.append(r)
+
     try:
         ev(A)
         for oname in history:
             kind, target, rng = ops[oname]
+            if kind in ('optimizer', 'mcmc'):
+                num = Num(k, vals=vals)
+                k += 1
+                if kind == 'optimizer':
+                    run_optimizer(A, target, num, checkpoint)
+                else:
+                    for attempt in range(len(XI_WITNESS)):
+                        try:
+                            run_mcmc(A, target, num, checkpoint, attempt)
+                            break
+                        except Retry as e:
+                            # a rejected proposal was restored by the real reject(): the state is the one before the attempt
+                            if attempt == len(XI_WITNESS) - 1:
+                                return False, f'planned decisions not reachable on plain tensors: {e}'
+                if found:
+                    return True, f'"{oname}", {found[0]}'
+                r = differ(f'after "{oname}"')
+                if r:
+                    return True, r
+                continue
             obj = A[target]
-            if kind == 'assign':
+            if kind == 'convert':
+                obj.cpu() if rng == 'cpu' else obj.to(torch.float64)
+            elif kind == 'assign':
                 obj.tensor = vals_for(target, tuple(obj.tensor.shape), rng)
             elif kind == 'inplace':
                 obj.tensor[...] = vals_for(target, tuple(obj.tensor.shape), rng)
@@ -834,16 +1672,15 @@ def _replay_history(scen, history, vals, only=None):
                     oper.reject()
                 finally:
                     torch.rand, torch.randint = sr, sri
-            B = mk()
-            for pname in base:
-                B[pname].tensor = A[pname].tensor.detach().clone()
-            got = ev(A)
-            want = ev(B)
-            for en in evaluators:
-                if got[en].shape != want[en].shape or not torch.allclose(got[en], want[en], rtol=1e-9, atol=1e-12, equal_nan=True):
-                    return True, f'after "{oname}": {en} = {got[en].tolist()} but a freshly built copy gives {want[en].tolist()}'
+            r = differ(f'after "{oname}"')
+            if r:
+                return True, r
     except Exception as e:
-        return True, f'raised {type(e).__name__}: {e}'
+        import traceback
+
+        frames = [f for f in traceback.extract_tb(e.__traceback__) if '/torchtree/' in f.filename] or traceback.extract_tb(e.__traceback__)
+        tb = frames[-1]
+        return True, f'raised {type(e).__name__}: {e} [{os.path.basename(tb.filename)} {tb.name}]'
     return False, 'agree'
 
 
@@ -915,6 +1752,66 @@ def tasks_for(tier):
     return ts
 
 
+def loop_tasks(tier):
+    """histories in which a real loop (Optimizer.run / MCMC.run) does the update"""
+    ts = []
+    for scen in SCENARIOS:
+        _, _, evaluators, base_ops = SCENARIOS[scen]()
+        loops = {n: o for n, o in loop_ops(scen).items() if tier == 'thorough' or o[1]['tier'] == 'quick'}
+        evs = list(evaluators)
+        assigns = [o for o, v in base_ops.items() if v[0] in ('assign', 'inplace')]
+        for c in convert_ops(scen):
+            # a conversion alone (every cache warm), after / before an update, and with one observer only
+            ts.append((scen, (c,)))
+            for a in (assigns if tier == 'thorough' else assigns[:2]):
+                ts.append((scen, (a, c)))
+                ts.append((scen, (c, a)))
+            for e in (evs if tier == 'thorough' else evs[:2]):
+                ts.append((scen, (c, c), e))
+        if not loops:
+            continue
+        names = list(loops)
+        for i, n in enumerate(names):
+            ts.append((scen, (n,)))  # every observer warmed before, every observer compared after (and inside, with the hook)
+            if HOOK in n:
+                continue  # the hook variant reads everything; the observer subsets below use the plain variant
+            # one observer only: what the loop itself evaluates (the loss, the joint under no_grad) is the only other reader
+            if tier == 'thorough':
+                singles = evs
+            else:
+                singles = [evs[(i * 3 + j * 5) % len(evs)] for j in range(3)]
+                singles = list(dict.fromkeys(singles))
+            if scen == 'variational':
+                singles = singles[:2] if tier == 'quick' else singles
+            for e in singles:
+                ts.append((scen, (n,), e))
+            accessors = [e for e in evs if e in ('tree.node_heights', 'tree.branch_lengths()')]
+            if len(accessors) == 2 and (tier == 'thorough' or i % 2 == 0):
+                ts.append((scen, (n,), (accessors[0], accessors[1])))
+                ts.append((scen, (n,), (accessors[1], accessors[0])))
+            # an assignment before / after the loop, the same loop twice
+            picks = assigns if tier == 'thorough' else [assigns[(i * 2) % len(assigns)], assigns[(i * 2 + 3) % len(assigns)]]
+            for a in dict.fromkeys(picks):
+                ts.append((scen, (a, n)))
+                ts.append((scen, (n, a)))
+            if tier == 'thorough' or i % 3 == 0:
+                ts.append((scen, (n, n)))
+        if tier == 'thorough':
+            for a, b in itertools.permutations(names, 2):
+                if (loops[a][0], loops[b][0]) in (('optimizer', 'mcmc'), ('mcmc', 'optimizer')) and HOOK not in a + b:
+                    ts.append((scen, (a, b)))
+        else:
+            opt = [n for n in names if loops[n][0] == 'optimizer' and HOOK not in n]
+            mc = [n for n in names if loops[n][0] == 'mcmc' and HOOK not in n]
+            for k in range(min(4, len(opt), len(mc))):
+                ts.append((scen, (opt[k], mc[(2 * k + 1) % len(mc)])))
+                ts.append((scen, (mc[(3 * k) % len(mc)], opt[-1 - k])))
+            hmc = [n for n in mc if 'HMCOperator' in n]
+            if opt and hmc:
+                ts.append((scen, (opt[0], hmc[0])))  # the optimiser loop leaves requires_grad set on what the HMC operator then moves
+    return ts
+
+
 def body(chk):
     chk.explanation = ('enumerated update histories over a composite model graph; every assignment writes fresh symbols, so a '
                        'stale cache is an expression that still mentions old symbols; after each operation every model value is '
@@ -924,29 +1821,61 @@ def body(chk):
                        '(one observer, thorough: two) over the variational graph reach the states in which a model in the middle '
                        'of the notification chain holds an invalid cache (it is read through rsample()/sample()/entropy(), never '
                        'called) while the objective listening to it holds a valid one')
+    chk.explanation += ('; real-loop histories: the update is made by the real Optimizer.run (SGD / Adam / LBFGS maximising the '
+                        'joint or an ELBO) or the real MCMC.run (Scaler / SlidingWindow / HMC operators, accept and reject) executed on '
+                        'SymTensors: the parameter values they leave are expressions (x - lr * dJ/dx, s * x, x + eps * M^-1 p), the fresh '
+                        'copy receives the same expression ids, every observer is compared after the loop and - through a logger hook - '
+                        'after each of its iterations; goals that are false at the witness are first put to the solver at the witness '
+                        'point (ground query), every counterexample is replayed with the real loop on plain tensors; three further '
+                        'graphs (unrooted tree + GTR + compound gamma-Dirichlet prior + shrinkage priors; time tree + birth-death / '
+                        'skyline / exponential / piecewise-linear / integrated coalescent / Poisson likelihood + flexible tree; '
+                        'torch.nn.Module-backed parameters) put every parameter class and every cached model class that the engine can '
+                        'execute into a history as updated object and as observer; cpu() / to(dtype) of every parameter class are '
+                        'operations that must not raise')
+    chk.total.bounds['classes'] = (
+        'updated object and observer in at least one graph: Parameter, ViewParameter, CatParameter (+ its Container), '
+        'TransformedParameter (ExpTransform; DifferenceNodeHeightTransform of a FlexibleTimeTreeModel; over a concatenation), '
+        'ModuleParameter + torchtree.nn.Module (in-place updates only: the torch.nn.Module owns the tensors); TimeTreeModel, '
+        'ReparameterizedTimeTreeModel, FlexibleTimeTreeModel, UnRootedTreeModel; Weibull / Invariant / Constant site models; HKY, GTR, '
+        'MG94; Strict / Simple clock; TreeLikelihoodModel, PoissonTreeLikelihood; Constant / PiecewiseConstant / '
+        'PiecewiseConstantGrid / Exponential / PiecewiseLinearGrid / ConstantIntegrated coalescent models; BirthDeathModel, '
+        'BDSKModel (one epoch); CompoundGammaDirichletPrior; CTMCScale; GMRF, GMRFGammaIntegrated (weighted and time-aware); '
+        'BayesianBridge (both forms), ScaleMixtureNormal; Distribution, JointDistributionModel, DeterministicNormal; ELBO, KLpq, '
+        'KLpqImportance, VR, CUBO; Hamiltonian (through HMCOperator).  NOT in any graph: RootParameter (cannot be instantiated: '
+        'abstract requires_grad setter missing), PiecewiseExponentialCoalescentGridModel (raises on every input: C08 finding), '
+        'MultivariateNormal / NormalizingFlow / RealNVP / EnergyFunctionModel / SELBO (engine: no handler for their kernels), '
+        'JC69 / GeneralJC69 / empirical models (no parameters), General(Non)SymmetricSubstitutionModel, cuda()')
     chk.total.assumptions |= {'substitution_model.p_t is an uninterpreted function of (branch argument, kappa, frequencies)',
                               'the base Parameter objects hold the current state; a fresh copy is built from the same JSON and '
                               'given the same tensors through the public setter',
-                              'optimiser steps are modelled as an in-place write into the held tensor followed by fire_parameter_changed()'}
+                              'optimiser steps: (a) modelled as an in-place write into the held tensor followed by fire_parameter_changed(), and (b) '
+                              'made by the real Optimizer.run on SymTensors (gradients by symbolic differentiation of the recorded joint; '
+                              'derivatives of the uninterpreted P_ij are uninterpreted symbols)',
+                              'a planned accept / reject decision of MCMC.run is reached by the placement of the witness of the uniform draw; '
+                              'when the acceptance probability at the witness is exactly 0 or 1 the history is re-run with other proposal '
+                              'draws / another witness interpretation of P_ij (up to 10 attempts, then inconclusive)',
+                              'Module / ModuleParameter graph: the torch.nn.Module owns the tensors, so the initial state and the state of '
+                              'the fresh copy are written in place (+ notification); assignment of a new tensor object is outside'}
     chk.total.stubs |= {'Distribution.rsample draw = fresh symbols', 'operator uniform draw = fresh symbol'}
     chk.total.assumptions |= {'variational scenario: the value a stochastic objective is compared with is the one a freshly built '
                               'copy computes from the same parameter values AND the same base noise (common random numbers); a '
                               'cached objective that is not re-drawn while no parameter changed is the CallableModel contract',
                               'variational scenario, vacuity guard: decided by the solver at the witness point (variables replaced '
                               'by their witness values, exp/log uninterpreted)'}
-    pmap(run_task, tasks_for(chk.tier), chk.total)
+    pmap(run_task, tasks_for(chk.tier) + loop_tasks(chk.tier), chk.total)
 
 
 if __name__ == '__main__':
     if '--replay' in sys.argv:
         import json
 
+        torch.set_default_dtype(torch.float64)  # as main_for does for the check itself (torchtree's command line runs in float64)
         r = json.load(open(sys.argv[sys.argv.index('--replay') + 1]))
         rp = r['replay']
-        if 'scenario' in rp:
-            scen_, hist_, only_ = rp['scenario'], tuple(rp['history']), None
-        else:
+        if 'label' in rp:
             scen_, hist_, only_ = parse_label(rp['label'])
+        else:
+            scen_, hist_, only_ = rp['scenario'], tuple(rp['history']), None
         ok, detail = replay_history(scen_, hist_, rp.get('values', {}), only_)
         print(('REPRODUCED ' if ok else 'NOT REPRODUCED ') + detail)
         sys.exit(1 if ok else 0)
